@@ -79,9 +79,6 @@ package hex
 //@   ensures xor: (result0 != nil) == (result1 == nil)
 //@   ensures bound: result1 == nil ==> result0.version != nil
 
-//@ func expandPessimisticConstraint
-//@   requires c.version != nil
-
 // ---- stored text (C18)
 
 //@ func (*Version).String
@@ -92,6 +89,7 @@ package hex
 
 // ---- pessimistic operator (C05): ~> X.Y is >= X.Y.0 and < (X+1).0.0 ; ~> X.Y.Z is >= X.Y.Z and < X.(Y+1).0
 //@ func expandPessimisticConstraint
+//@   requires c.version != nil
 //@   ensures shape: len(result) == 2 && result[0] != nil && result[1] != nil && result[0].operator == ">=" && result[0].version == c.version && result[1].operator == "<" && result[1].version != nil   [C05]
 //@   ensures two-components-zero-minor: strings.Count(c.version.original, ".") == 1 && c.version.minor == 0 && c.version.major < 9223372036854775807 ==> result[1].version.major == c.version.major + 1 && result[1].version.minor == 0 && result[1].version.patch == 0 && len(result[1].version.preRelease) == 0   [C05]
 //@   ensures two-components-nonzero-minor: strings.Count(c.version.original, ".") == 1 && c.version.minor != 0 && c.version.major < 9223372036854775807 ==> result[1].version.major == c.version.major + 1 && result[1].version.minor == 0 && result[1].version.patch == 0 && len(result[1].version.preRelease) == 0   [C05]
